@@ -12,9 +12,10 @@
    facts used about it as premises.
 
    NOT covered by theorems (oracle-only, see harness/props/c18.py): general p-norms, minkowski, impose_moment,
-   weighted median/mad and the trimmed statistics with their impose_* forms. *)
+   weighted median, mad and the trimmed statistics with their impose_* forms (the unweighted median and impose_median
+   are modelled in Pure/Median.v: [median_u], [impose_median_u]). *)
 From Coq Require Import List Arith ZArith Reals.
-From MV Require Import Common.Num Common.NumR Common.C18_Sums Pure.Measures Pure.Measures_Proofs Pure.Measures_Refuted.
+From MV Require Import Common.Num Common.NumR Common.C18_Sums Pure.Measures Pure.Measures_Proofs Pure.Measures_Refuted Pure.Median Pure.Median_Proofs.
 Import ListNotations.
 Open Scope R_scope.
 
@@ -363,6 +364,34 @@ Theorem C18_impose_collapse_single_pair : forall i j x w y wts,
   (forall k, k <> i -> k <> j -> nth k wts 0 = nth k w 0) /\ Rsum wts = Rsum w.
 Proof. exact impose_collapse_single_pair. Qed.
 Print Assumptions C18_impose_collapse_single_pair.
+
+(* ------------------------------------------------------------------ unweighted median / impose_median *)
+(* every non-empty sample list has a median, and impose_median reaches its target for every one of them *)
+Theorem C18_impose_median_hits : forall m x, x <> [] ->
+  exists y, impose_median_u NumR m x = Some y /\ length y = length x /\ median_u NumR y = Some m.
+Proof. exact impose_median_hits_nonempty. Qed.
+Print Assumptions C18_impose_median_hits.
+
+(* the median moves with a common shift of the samples (what impose_median relies on) *)
+Theorem C18_median_shift : forall c x md, median_u NumR x = Some md -> median_u NumR (map (fun a => a + c) x) = Some (md + c).
+Proof. exact median_shift'. Qed.
+Print Assumptions C18_median_shift.
+
+Theorem C18_median_defined : forall x, x <> [] -> median_u NumR x <> None.
+Proof. exact median_defined. Qed.
+Print Assumptions C18_median_defined.
+
+(* no samples: numpy.mean of nothing is nan, and impose_median passes that on *)
+Theorem C18_impose_median_undefined : forall m x, median_u NumR x = None -> impose_median_u NumR m x = None.
+Proof. exact impose_median_undefined. Qed.
+Print Assumptions C18_impose_median_undefined.
+
+(* the executable model computes the textbook median of odd and even sample counts (exact rationals) *)
+Example C18_median_model_runs :
+  option_map Qreduction.Qred (median_u NumQ [QArith_base.Qmake 3 1; QArith_base.Qmake 1 1; QArith_base.Qmake 2 1]) = Some (QArith_base.Qmake 2 1) /\
+  option_map Qreduction.Qred (median_u NumQ [QArith_base.Qmake 4 1; QArith_base.Qmake 1 1; QArith_base.Qmake 3 1; QArith_base.Qmake 2 1])
+    = Some (QArith_base.Qmake 5 2).
+Proof. exact (conj (proj1 median_runs) (proj1 (proj2 median_runs))). Qed.
 
 (* ------------------------------------------------------------------ non-vacuity *)
 (* the premises about sqrt are met by the real square root *)
